@@ -7,24 +7,34 @@ package seqio
 // scanner are run on every record within the bound.
 //
 // Bound (records built through the API, one dimension varied at a time around a base record, plus
-// seeded random combinations of all dimensions: 300 quick / 6000 thorough):
+// seeded random combinations of all dimensions: 300 quick / 6000 thorough, plus structure-aware
+// random records: 600 quick / 20000 thorough - every text field drawn from words with the
+// punctuation of real records and lengths straddling the wrap columns, locus names of 1..26
+// characters, reference numbers incl. 99..999, feature keys of 1..16 characters, joins of up to
+// 13 parts (wrapped location lines), qualifier values with line breaks; SOURCE and ORGANISM
+// values kept to one line, no double quotes):
 //   residues     0, 1, 9, 10, 11, 59, 60, 61, 119, 120, 121, 130 (ORIGIN line/group boundaries)
 //   locus        names of 1, 6 and 16 characters; DNA, RNA, ss-DNA, ds-DNA; linear, circular;
 //                divisions SYN, PHG, UNA; dates 01-JAN-1980, 29-FEB-2000, 31-DEC-1999, 06-JUL-2018
-//   header       definition short / 100 characters / with an inner period; accession with and
-//                without version; DBLINK 0..2 pairs; keywords none / one / five; source, organism,
+//   header       definition short / 100 characters / with an inner period / ending in one or two
+//                periods / empty; accession with and without version; DBLINK 0..2 pairs, a pair
+//                with an empty value; keywords none / one / five; source, organism,
 //                taxonomy short and wrapped; 0..3 references with any subset of AUTHORS, CONSRTM,
 //                TITLE, JOURNAL, PUBMED, REMARK and range info; 0..2 comments (one multi-line)
 //   features     0..4 features; keys source, gene, CDS, misc_feature; locations: range, partial
 //                ranges, point, between-site, complement, join, order, complement(join);
 //                qualifiers: quoted, literal (/codon_start=1), toggle (/pseudo), a 150-character
-//                quoted value (wraps), a value with a doubled quote, two qualifiers of one name
+//                quoted value (wraps), values of exactly 57..59 characters, values with line
+//                breaks (a short inner line, an empty inner line), leading/trailing blanks, a
+//                backslash, a value with a double quote, two qualifiers of one name
 //   streams      1..4 records written one after the other into one stream
-//   pipelines    the four records of seqio/testdata and the base record, after each of
+//   pipelines    the four records of seqio/testdata, the base record and a record with both a
+//                CONTIG field and residues, after each of
 //                Slice (inner, prefix of 1/60/61, origin-spanning, empty), Delete, Erase, Insert,
 //                Embed, Rotate, Reverse, Concat, WithFeatures(nil), and after pairs of them
 // Clauses: record-writes, written-record-parses, residues-kept, features-kept, header-kept,
-// write-read-write-fixed-point, stream-framed-independently, corpus-declared-length (the four
+// write-read-write-fixed-point, stream-framed-independently, unknown-qualifier-names,
+// corpus-declared-length (the four
 // files of seqio/testdata are read with as many residues as their LOCUS line declares).
 // Defect classes told apart by the input: embedded-quote (some qualifier value contains a double
 // quote), empty-region (the record is an empty slice).
@@ -176,7 +186,7 @@ func vgFeatDiff(a, b gts.FeatureSlice) string {
 		if a[i].Loc.String() != b[i].Loc.String() {
 			return fmt.Sprintf("feature %d: location wrote %s read %s", i, a[i].Loc, b[i].Loc)
 		}
-		if !reflect.DeepEqual([][]string(a[i].Props), [][]string(b[i].Props)) {
+		if (len(a[i].Props) != 0 || len(b[i].Props) != 0) && !reflect.DeepEqual([][]string(a[i].Props), [][]string(b[i].Props)) {
 			return fmt.Sprintf("feature %d (%s): qualifiers wrote %v read %v", i, a[i].Key, a[i].Props, b[i].Props)
 		}
 	}
@@ -301,6 +311,203 @@ func vgMake(f GenBankFields, ff gts.FeatureSlice, n int) gts.Sequence {
 	return GenBank{f, ff, NewOrigin(vgResidues(n))}
 }
 
+// ---- structure-aware random records -------------------------------------------------------
+// Every text field is drawn from words over letters, digits and the punctuation that occurs in
+// real records, with lengths that straddle the wrap columns; names, numbers and keys are drawn
+// over their whole width.  Double quotes are left out (known finding embedded-quote).
+
+var vgWords = []string{"a", "of", "the", "sp.", "str.", "subsp.", "K-12", "MG1655", "Escherichia", "coli", "virus", "phiX174", "complete", "genome",
+	"hypothetical", "protein", "DNA-binding", "transcriptional", "regulator,", "(EC", "2.7.7.7)", "5'-end", "alpha/beta", "x=y", "semi;colon", "Monodnaviria", "Malgrandaviricetes", "1", "42", "Z"}
+
+func vgText(rng *rand.Rand, minWords, maxWords int) string {
+	n := minWords + rng.Intn(maxWords-minWords+1)
+	w := make([]string, n)
+	for i := range w {
+		w[i] = vgWords[rng.Intn(len(vgWords))]
+	}
+	return strings.Join(w, " ")
+}
+
+// vgLines: text with explicit line breaks (multi-line fields are written with the breaks kept).
+func vgLines(rng *rand.Rand, maxLines int) string {
+	n := 1 + rng.Intn(maxLines)
+	l := make([]string, n)
+	for i := range l {
+		l[i] = vgText(rng, 1, 9)
+	}
+	return strings.Join(l, "\n")
+}
+
+func vgClip(s string, n int) string {
+	if len(s) > n {
+		s = strings.TrimSpace(s[:n])
+	}
+	return s
+}
+
+func vgName(rng *rand.Rand, alphabet string, minLen, maxLen int) string {
+	n := minLen + rng.Intn(maxLen-minLen+1)
+	b := make([]byte, n)
+	for i := range b {
+		b[i] = alphabet[rng.Intn(len(alphabet))]
+	}
+	return string(b)
+}
+
+// vgRandomLoc: compound locations are built from increasing parts that neither touch nor
+// overlap, so that the join reduction (property C06) has nothing to merge.
+func vgRandomLoc(rng *rand.Rand, n int) gts.Location {
+	leafAt := func(a, b int) gts.Location {
+		switch rng.Intn(6) {
+		case 0:
+			return gts.Point(a)
+		case 1:
+			return gts.Between(a)
+		case 2:
+			return gts.PartialRange(a, b, []gts.Partial{gts.Partial5, gts.Partial3, gts.PartialBoth}[rng.Intn(3)])
+		}
+		return gts.Range(a, b)
+	}
+	leaf := func() gts.Location {
+		a := rng.Intn(n - 1)
+		return leafAt(a, a+1+rng.Intn(n-a-1))
+	}
+	parts := func(k int) []gts.Location {
+		// k parts of width w separated by gaps of at least 2
+		var out []gts.Location
+		step := n / k
+		if step < 4 {
+			return []gts.Location{leaf()}
+		}
+		for i := 0; i < k; i++ {
+			a := i*step + rng.Intn(step-3)
+			b := a + 1 + rng.Intn(i*step+step-2-a)
+			l := leafAt(a, b)
+			if rng.Intn(5) == 0 {
+				l = l.Complement()
+			}
+			out = append(out, l)
+		}
+		return out
+	}
+	switch rng.Intn(8) {
+	case 0:
+		return leaf().Complement()
+	case 1:
+		return gts.Join(parts(2 + rng.Intn(12))...)
+	case 2:
+		return gts.Order(parts(2 + rng.Intn(4))...)
+	case 3:
+		return gts.Join(parts(2 + rng.Intn(3))...).Complement()
+	}
+	return leaf()
+}
+
+var vgQuotedNames = []string{"note", "gene", "product", "locus_tag", "db_xref", "function", "inference", "protein_id", "translation", "organism", "mol_type"}
+var vgLiteralNames = []string{"codon_start", "number", "citation", "transl_table", "estimated_length"}
+var vgToggleNames = []string{"pseudo", "partial", "ribosomal_slippage", "trans_splicing", "germline"}
+var vgKeys = []string{"source", "gene", "CDS", "misc_feature", "rep_origin", "mat_peptide", "regulatory", "ncRNA", "misc_difference", "a", "V_region", "fifteen_chars_k"}
+
+func vgRandomRecord(rng *rand.Rand) gts.Sequence {
+	const upper = "ABCDEFGHIJKLMNOPQRSTUVWXYZ"
+	const ident = "ABCDEFGHIJKLMNOPQRSTUVWXYZabcdefghijklmnopqrstuvwxyz0123456789_"
+	f := GenBankFields{}
+	f.LocusName = vgName(rng, ident, 1, 26)
+	f.Molecule = []gts.Molecule{gts.DNA, gts.RNA, gts.SingleStrandDNA, gts.DoubleStrandDNA}[rng.Intn(4)]
+	f.Topology = []gts.Topology{gts.Linear, gts.Circular}[rng.Intn(2)]
+	f.Division = vgName(rng, upper, 3, 3)
+	f.Date = Date{1980 + rng.Intn(60), time.Month(1 + rng.Intn(12)), 1 + rng.Intn(28)}
+	f.Definition = vgLines(rng, 3)
+	f.Accession = vgName(rng, ident, 1, 12)
+	if rng.Intn(4) > 0 {
+		f.Version = f.Accession + "." + strconv.Itoa(1+rng.Intn(30))
+	}
+	for k := rng.Intn(4); k > 0; k-- {
+		v := ""
+		if rng.Intn(5) > 0 {
+			v = vgName(rng, ident, 1, 14)
+		}
+		f.DBLink = append(f.DBLink, Pair{[]string{"BioProject", "BioSample", "Assembly", "KEGG BRITE"}[len(f.DBLink)%4], v})
+	}
+	for k := rng.Intn(7); k > 0; k-- {
+		f.Keywords = append(f.Keywords, vgText(rng, 1, 3))
+	}
+	// SOURCE and ORGANISM values stay on one line: the flat-file format cannot tell the
+	// continuation of a wrapped organism name from the first line of the lineage
+	f.Source.Species = vgClip(vgText(rng, 1, 8), 66)
+	f.Source.Name = vgClip(vgText(rng, 1, 8), 66)
+	for k := rng.Intn(14); k > 0; k-- {
+		f.Source.Taxon = append(f.Source.Taxon, vgText(rng, 1, 4))
+	}
+	nref := rng.Intn(4)
+	for k := 0; k < nref; k++ {
+		r := Reference{Number: k + 1}
+		if rng.Intn(8) == 0 {
+			r.Number = []int{99, 100, 101, 999}[rng.Intn(4)]
+		}
+		switch rng.Intn(4) {
+		case 0:
+			r.Info = fmt.Sprintf("(bases %d to %d)", 1+rng.Intn(50), 51+rng.Intn(50))
+		case 1:
+			r.Info = fmt.Sprintf("(bases %d to %d; %d to %d)", 1+rng.Intn(20), 21+rng.Intn(20), 41+rng.Intn(20), 61+rng.Intn(20))
+		case 2:
+			r.Info = "(sites)"
+		}
+		if rng.Intn(5) > 0 {
+			r.Authors = vgLines(rng, 3)
+		}
+		if rng.Intn(4) == 0 {
+			r.Group = vgText(rng, 1, 5)
+		}
+		if rng.Intn(5) > 0 {
+			r.Title = vgLines(rng, 3)
+		}
+		r.Journal = vgLines(rng, 2)
+		if rng.Intn(2) == 0 {
+			r.Xref = map[string]string{"PUBMED": strconv.Itoa(1 + rng.Intn(9999999))}
+		}
+		if rng.Intn(4) == 0 {
+			r.Comment = vgLines(rng, 2)
+		}
+		f.References = append(f.References, r)
+	}
+	for k := rng.Intn(3); k > 0; k-- {
+		f.Comments = append(f.Comments, vgLines(rng, 4))
+	}
+	n := []int{9, 10, 11, 59, 60, 61, 119, 120, 121, 130, 200, 1000}[rng.Intn(12)]
+	var ff gts.FeatureSlice
+	for k := rng.Intn(7); k > 0; k-- {
+		key := vgKeys[rng.Intn(len(vgKeys))]
+		if rng.Intn(6) == 0 {
+			key = vgName(rng, "abcdefghijklmnopqrstuvwxyz_", 1, 15)
+		}
+		var props gts.Props
+		for q := rng.Intn(6); q > 0; q-- {
+			switch rng.Intn(8) {
+			case 0:
+				props.Add(vgLiteralNames[rng.Intn(len(vgLiteralNames))], strconv.Itoa(1+rng.Intn(11)))
+			case 1:
+				props.Add(vgToggleNames[rng.Intn(len(vgToggleNames))], "")
+			case 2:
+				props.Add(vgQuotedNames[rng.Intn(len(vgQuotedNames))], vgLines(rng, 4))
+			case 3:
+				props.Add(vgQuotedNames[rng.Intn(len(vgQuotedNames))], vgName(rng, "ACDEFGHIKLMNPQRSTVWY", 1, 150))
+			default:
+				props.Add(vgQuotedNames[rng.Intn(len(vgQuotedNames))], vgText(rng, 0, 14))
+			}
+		}
+		loc := vgRandomLoc(rng, n)
+		if rng.Intn(12) == 0 {
+			// a key that fills the whole key column: only a location starting with '<' can follow it
+			key = vgName(rng, "abcdefghijklmnopqrstuvwxyz", 16, 16)
+			a := rng.Intn(n - 1)
+			loc = gts.PartialRange(a, a+1+rng.Intn(n-a-1), gts.Partial5)
+		}
+		ff = ff.Insert(gts.NewFeature(key, loc, props))
+	}
+	return GenBank{f, ff, NewOrigin(vgResidues(n))}
+}
+
 func TestVerifBoundedGenBank(t *testing.T) {
 	seed, _ := strconv.ParseInt(os.Getenv("VERIF_SEED"), 10, 64)
 	rng := rand.New(rand.NewSource(seed + 11))
@@ -351,7 +558,7 @@ func TestVerifBoundedGenBank(t *testing.T) {
 		check(fmt.Sprintf("date=%v", v), vgMake(f, vgBaseTable(61), 61))
 	}
 	// dimension: header
-	definitions := []string{"short", strings.TrimSpace(strings.Repeat("long definition word ", 5)), "Escherichia coli str. K-12 substr. MG1655, complete genome"}
+	definitions := []string{"short", strings.TrimSpace(strings.Repeat("long definition word ", 5)), "Escherichia coli str. K-12 substr. MG1655, complete genome", "Streptomyces sp.", "ends with two periods..", ""}
 	for i, v := range definitions {
 		f := vgBaseFields()
 		f.Definition = v
@@ -363,7 +570,7 @@ func TestVerifBoundedGenBank(t *testing.T) {
 		f.Accession, f.Version = v[0], v[1]
 		check(fmt.Sprintf("accession#%d", i), vgMake(f, vgBaseTable(61), 61))
 	}
-	dblinks := []Dictionary{nil, {{"BioProject", "PRJNA14015"}}, {{"BioProject", "PRJNA14015"}, {"BioSample", "SAMN02604091"}}}
+	dblinks := []Dictionary{nil, {{"BioProject", "PRJNA14015"}}, {{"BioProject", "PRJNA14015"}, {"BioSample", "SAMN02604091"}}, {{"BioProject", "PRJNA14015"}, {"BioSample", ""}}, {{"BioProject", ""}}}
 	for i, v := range dblinks {
 		f := vgBaseFields()
 		f.DBLink = v
@@ -427,6 +634,12 @@ func TestVerifBoundedGenBank(t *testing.T) {
 		{"note", "first", "note", "second"}, {"gene", "abc", "pseudo", "", "codon_start", "2", "note", long},
 		{"note", ""}, {"unknown_name", "value"}, {"note", "ends with a slash /"}, {"note", "has /a=slash inside the long text " + long},
 		{"translation", strings.Repeat("MKVLAAGIVG", 12)},
+		{"note", "a first line that is longer than the qualifier indent\nshort\nlast line of the note"},
+		{"note", "two lines\nsecond"}, {"note", "blank line inside\n\nafter the blank line"},
+		{"note", "x\ny\nz"}, {"note", strings.Repeat("w", 58)}, {"note", strings.Repeat("w", 59)}, {"note", strings.Repeat("w", 57) + " x"},
+		{"note", "trailing blank "}, {"note", " leading blank"}, {"note", "semi;colon, comma and (parens) = equals"},
+		{"db_xref", "GeneID:944742", "db_xref", "ASAP:ABE-0000008"},
+		{"label", "pBR322\\origin"},
 	}
 	for i, q := range quals {
 		ff := gts.FeatureSlice{gts.NewFeature("source", gts.Range(0, 61), vgProps("organism", "x"))}
@@ -473,6 +686,58 @@ func TestVerifBoundedGenBank(t *testing.T) {
 			ff = ff.Insert(gts.NewFeature([]string{"gene", "CDS", "misc_feature"}[rng.Intn(3)], locs[rng.Intn(len(locs))], vgProps(quals[rng.Intn(len(quals))]...)))
 		}
 		check(fmt.Sprintf("random#%d", k), vgMake(f, ff, n))
+	}
+
+	// structure-aware random records
+	nStruct := 600
+	if os.Getenv("VERIF_TIER") == "thorough" {
+		nStruct = 20000
+	}
+	for k := 0; k < nStruct; k++ {
+		check(fmt.Sprintf("structured#%d", k), vgRandomRecord(rng))
+	}
+
+	// qualifier names the registries do not know, met in the text of a record (not built through
+	// the API): a flag, a quoted and a literal one, with names never seen before in this process.
+	// Two copies of the record in one stream must read alike (the first record registers the
+	// names for the second), and the record must survive write -> read.
+	for k := 0; k < 12; k++ {
+		base, err := vgWrite(vgMake(vgBaseFields(), vgBaseTable(61), 61))
+		if err != nil {
+			break
+		}
+		uniq := fmt.Sprintf("%d_%d", seed, k)
+		inj := "                     /zzflag_" + uniq + "\n                     /zzquoted_" + uniq + "=\"some text\"\n                     /zzliteral_" + uniq + "=12\n"
+		marker := "     gene            5..40\n"
+		if !strings.Contains(base, marker) {
+			vgRec("unknown-qualifier-names", "other", "harness: marker line not found in the written record")
+			break
+		}
+		text := strings.Replace(base, marker, marker+inj, 1)
+		if k%2 == 1 {
+			text = strings.ReplaceAll(text, "\n", "\r\n")
+		}
+		count++
+		got, err := vgRead(text + text)
+		if err != nil || len(got) != 2 {
+			vgRec("unknown-qualifier-names", "other", fmt.Sprintf("two copies: read %d records, err=%v", len(got), err))
+			continue
+		}
+		if d := vgFeatDiff(got[0].Features(), got[1].Features()); d != "" {
+			vgRec("unknown-qualifier-names", "other", "first and second copy of one record read differently: "+d)
+		}
+		for _, name := range []string{"zzflag_" + uniq, "zzquoted_" + uniq, "zzliteral_" + uniq} {
+			found := false
+			for _, f := range got[0].Features() {
+				if f.Props.Has(name) {
+					found = true
+				}
+			}
+			if !found {
+				vgRec("unknown-qualifier-names", "other", "qualifier /"+name+" is not in the table read")
+			}
+		}
+		check("unknown-qualifier-names#"+uniq, got[0])
 	}
 
 	// streams
@@ -545,6 +810,20 @@ func TestVerifBoundedGenBank(t *testing.T) {
 			name string
 			seq  gts.Sequence
 		}{"base130", vgMake(f, vgBaseTable(130), 130)})
+	}
+	{
+		// a record that carries both a CONTIG field and residues
+		f := vgBaseFields()
+		f.Division = "CON"
+		f.Contig = Contig{"U00096", gts.Segment{0, 130}}
+		in := vgMake(f, vgBaseTable(130), 130)
+		check("contig+origin", in)
+		inputs = append(inputs, struct {
+			name string
+			seq  gts.Sequence
+		}{"contig+origin130", in})
+		f.Contig = Contig{"U00096", gts.Segment{10, 500}}
+		check("contig(other span)+origin", vgMake(f, vgBaseTable(130), 130))
 	}
 	safe := func(o op, seq gts.Sequence) (out gts.Sequence, err error) {
 		defer func() {
